@@ -153,6 +153,31 @@ def m_dirdelete_race(f, case, viol):
     return bool(paths) and all(any(_related(_unconf(p), q) for q in rel) for p in paths)
 
 
+def m_dup_folder_discard(f, case, viol):
+    """mechanism (manager.mkdir_synced: "these we can toss ... keep the current one, since it exists for sure"): a folder path P
+    exists as two entries because P was made twice (by both users, or deleted and made again) and the engine has not been quiet
+    in between; when the entry of the folder that no longer exists is looked at first, the live, already paired entry is
+    discarded, and a later delete of P on that pair is ignored.  History: no rename; >= 2 mkdir of one path P and >= 1
+    rmtree/rmdir of P with no quiet point anywhere between the first and the last of them; every differing path is P or below."""
+    ops = user_ops(case)
+    if any(u[2] in ("rename", "rename_dir") for u in ops):
+        return False
+    plan = case.get("plan", [])
+    cands = set()
+    for P in set(u[3] for u in ops if u[2] == "mkdir"):
+        idx = [i for i, it in enumerate(plan) if it and it[0] == "U" and it[3] == P and it[2] in ("mkdir", "rmtree", "rmdir")]
+        mk = [i for i in idx if plan[i][2] == "mkdir"]
+        dl = [i for i in idx if plan[i][2] != "mkdir"]
+        if len(mk) >= 2 and dl and not any(it and it[0] == "Q" for it in plan[idx[0]:idx[-1]]):
+            cands.add(P)
+    if not cands:
+        return False
+    if viol["cls"] == "nonquiescent":
+        return True
+    paths = _diff_paths(viol)
+    return bool(paths) and all(any(_related(_unconf(p), c) and (_unconf(p) == c or _unconf(p).startswith(c + "/")) for c in cands) for p in paths)
+
+
 def m_event_exc(f, case, viol):
     """mechanism: an exception raised by the state API (state.py) escaped an event-intake step while an event was being
     applied; the provider's read position had already moved past that event, so it is never delivered again."""
@@ -462,7 +487,7 @@ def m_moved_out_race(f, case, viol):
     return _paths_related_to_moves(viol, ok, case)
 
 
-MATCHERS = {"missing_resurrect": m_missing_resurrect, "pathless_recreate": m_pathless_recreate, "declined_conflict": m_declined_conflict, "mock_path_ci": m_mock_path_ci, "request_stale_entry": m_request_stale_entry, "late_parent_event": m_late_parent_event, "crash_dup_entry": m_crash_dup_entry, "boundary_folder_move": m_boundary_folder_move, "moved_out_race": m_moved_out_race, "crash_rename_over": m_crash_rename_over, "event_exc": m_event_exc, "half_transfer": m_half_transfer, "history": m_history, "rename_race": m_rename_race, "dirdelete_race": m_dirdelete_race}
+MATCHERS = {"dup_folder_discard": m_dup_folder_discard, "missing_resurrect": m_missing_resurrect, "pathless_recreate": m_pathless_recreate, "declined_conflict": m_declined_conflict, "mock_path_ci": m_mock_path_ci, "request_stale_entry": m_request_stale_entry, "late_parent_event": m_late_parent_event, "crash_dup_entry": m_crash_dup_entry, "boundary_folder_move": m_boundary_folder_move, "moved_out_race": m_moved_out_race, "crash_rename_over": m_crash_rename_over, "event_exc": m_event_exc, "half_transfer": m_half_transfer, "history": m_history, "rename_race": m_rename_race, "dirdelete_race": m_dirdelete_race}
 
 
 def match_one(f, case, viol):
